@@ -49,6 +49,7 @@ LOOKUP = {
     "<alloc::collections::vec_deque::VecDeque<T, A> as core::ops::index::Index<usize>>::index",
     "<alloc::vec::Vec<T, A> as core::ops::index::Index<I>>::index",
     "smallvec::SmallVec::len", "smallvec::SmallVec::is_empty",
+    "<smallvec::SmallVec<A> as core::ops::index::Index<I>>::index", "<smallvec::SmallVec<A> as core::ops::index::IndexMut<I>>::index_mut",
     "core::ops::deref::Deref::deref", "core::ops::deref::DerefMut::deref_mut",
     "<alloc::vec::Vec<T, A> as core::ops::deref::Deref>::deref", "<alloc::vec::Vec<T, A> as core::ops::deref::DerefMut>::deref_mut",
     "<smallvec::SmallVec<A> as core::ops::deref::Deref>::deref", "<smallvec::SmallVec<A> as core::ops::deref::DerefMut>::deref_mut",
